@@ -268,3 +268,91 @@ Print Assumptions C07_TTML.C07_srt_to_ttml_styled.
 Print Assumptions C07_TTML.C07_vtt_to_ttml_styled.
 Print Assumptions C07_TTML.C07_ssa_to_ttml_styled.
 Print Assumptions C07_TTML.C07_stl_to_ttml_styled.
+(* ---- styled conversions into EBU STL (Model/ConvStl.v, Proofs/ConvStlProofs.v).  conv_S_stl = what WriteToSTL sees of a cue
+   list the S reader produced: no reader sets an STL attribute, so the times and, per line, the texts of the line items
+   (joined by the writer with a blank), plus of the metadata the title (SSA script info, TTML), the frame rate and the
+   mapped language (TTML).  For every S result whose conversion is representable (stl_conv_ok: stl_plain_ok of the cues
+   with the runs of each line joined by a blank - repertoire, no white space at the ends, 112 bytes, times below 100 h -,
+   the metadata that travels fits the GSI block, and the frame rate is not 30: a 30 fps file has another unit and is
+   covered by C05_write_read_teletext): the conversion succeeds, the STL file read back has the same cues in the same order,
+   times truncated to the 40 ms frame, and per line the same text ONCE BLANKS ARE DISREGARDED (plain_nows / stl_nows: the
+   writer's blank between two runs is the only difference; the read-back itself is given exactly by
+   C07_conversion_into_stl). *)
+From Astisub Require Import Model.Ssa Model.PlainSsa Model.Ttml Model.PlainTtml Model.ConvStl Proofs.ConvStlProofs.
+Theorem C07_conversion_into_stl : forall md rv, stl_conv_ok md (rv_joined rv) ->
+  exists dst, write_conv_stl (md, stl_of_runs rv) = Ok dst /\
+              stl_dec dst = Ok (ptrunc 40000000 (rv_joined rv)) /\
+              plain_nows (ptrunc 40000000 (rv_joined rv)) = plain_nows (ptrunc 40000000 (rv_concat rv)).
+Proof. exact conversion_into_stl. Qed.
+Theorem C07_srt_to_stl_styled : forall l, stl_conv_ok None (rv_joined (srt_runs l)) -> styled_into_stl (conv_srt_stl l) (srt_to_plain l).
+Proof. exact srt_to_stl_styled. Qed.
+Theorem C07_vtt_to_stl_styled : forall d, stl_conv_ok (fst (conv_vtt_stl d)) (rv_joined (vtt_runs d)) -> styled_into_stl (conv_vtt_stl d) (vtt_to_plain d).
+Proof. exact vtt_to_stl_styled. Qed.
+Theorem C07_ssa_to_stl_styled : forall d, stl_conv_ok (fst (conv_ssa_stl d)) (rv_joined (ssa_runs d)) -> styled_into_stl (conv_ssa_stl d) (ssa_to_plain d).
+Proof. exact ssa_to_stl_styled. Qed.
+Theorem C07_ttml_to_stl_styled : forall d, stl_conv_ok (fst (conv_ttml_stl d)) (rv_joined (ttml_runs d)) -> styled_into_stl (conv_ttml_stl d) (ttml_to_plain d).
+Proof. exact ttml_to_stl_styled. Qed.
+(* a TTML cue list with title, language and frame rate 25, two runs in a line, a time off the grid: converted, 1280 bytes,
+   title and language code in the GSI block, read back "Hello world" for the runs "Hello" "world" *)
+Example C07_into_stl_styled_example : stl_conv_ok (fst (conv_ttml_stl ex_tdoc)) (rv_joined (ttml_runs ex_tdoc)).
+Proof. exact ex_tdoc_ok. Qed.
+Print Assumptions C07_conversion_into_stl.
+Print Assumptions C07_srt_to_stl_styled.
+Print Assumptions C07_vtt_to_stl_styled.
+Print Assumptions C07_ssa_to_stl_styled.
+Print Assumptions C07_ttml_to_stl_styled.
+
+(* ---- styled EBU STL SOURCES converted to WebVTT and TTML (Model/ConvStlVtt.v, ConvStlTtml.v; Proofs/ConvStlVttProofs.v,
+   ConvStlTtmlProofs.v).  The source is the cue list ReadFromSTL gives for a file (C05_read_rendered says which one): every
+   row is a list of runs with the italic / underline / boxing flags and, under the teletext standards, colour and double
+   height; the cue carries justification and vertical position.  conv_stl_vtt / conv_stl_ttml = what WriteToWebVTT /
+   WriteToTTML look at:
+     - WebVTT: times; the cue settings align:... line:...% the STL reader derived from justification code and vertical
+       position (ri_align, ri_line); per run the text, and of the teletext colours red / yellow / magenta / cyan a class tag
+       <c.NAME> (the writer's colour table has no name for black, green #008000, blue, white: lost); italic, underline,
+       boxing, double height are lost;
+     - TTML: times; Metadata.Language -> xml:lang (the code of the language table), Metadata.Title -> ttm:title; per run a
+       <span>, with tts:color="#rrggbb" for each of the eight teletext colours; everything else is lost (the frame rate is
+       not written).  The library's bytes go through encoding/xml's EscapeText: convert_stl_ttml_go; the GSI title is a raw
+       byte string, anything in it that is not XML-legal UTF-8 becomes U+FFFD (stlttml_legalb excludes it).
+   Statements: for every STL file the reader accepts whose cue list is representable in the destination
+   (stl_vtt_ok / stlttml_ok, decidable: at least one cue, times 0 .. MaxInt64, run texts a WebVTT cue line / a TTML span can
+   hold; for WebVTT also: no two adjacent runs of one written colour class; for TTML: every cue has a line - a cue without
+   lines reads back with one empty line), the conversion succeeds and the destination read back has the same cues in the
+   same order, times truncated to the millisecond, and per line the text of the runs PUT TOGETHER (stl_to_plain: run texts
+   concatenated).  The STL reader trims every run, so a blank the FILE has between two runs of a row (WriteToSTL puts one
+   there, C07_conversion_into_stl) is not in the cue list and not in the destination: with respect to the rows of the file
+   the text is equal ONCE WHITE SPACE BETWEEN RUNS IS DISREGARDED - "hello" + italic "world" in the file comes out as
+   "helloworld" (ex_stlvtt_file: computed on a written file, the bytes observed on the library).
+   Not covered: WebVTT with adjacent runs of the same colour class (written <c.red>a</c><c.red>b</c>; ex_stlvtt_same_readback
+   computes one such case, the text is preserved there too); negative times (programme start above a time code). *)
+From Astisub Require Import Model.ConvStlVtt Model.ConvStlTtml Proofs.ConvStlVttProofs Proofs.ConvStlTtmlProofs.
+From Astisub Require Proofs.TtmlDocSpec.
+Theorem C07_stl_to_vtt_styled : forall ign data d, read_stl ign data = Ok d -> stl_vtt_ok d ->
+  exists dst, convert_stl_vtt ign data = Ok dst /\ vtt_dec dst = Ok (ptrunc 1000000 (stl_to_plain d)).
+Proof. exact conversion_stl_vtt_file. Qed.
+Theorem C07_stl_to_ttml_styled : forall ign data d, read_stl ign data = Ok d -> stlttml_ok d -> stlttml_legalb d = true ->
+  exists dst, convert_stl_ttml_go ign data = Ok dst /\ ttml_dec dst = Ok (ptrunc 1000000 (stl_to_plain d)).
+Proof. exact conversion_stl_ttml_styled_go. Qed.
+(* the TTML destination read back as a document: title, mapped language, colours and run boundaries are there *)
+Theorem C07_stl_to_ttml_styled_doc : forall d : rdoc, stlttml_ok d ->
+  exists dst, write_ttml_bytes ttml_default_indent (conv_stl_ttml d) = Ok dst /\
+              read_ttml_bytes dst
+              = Ok (mkDoc (Some (mkMeta 0 (rd_title d) [] (TtmlDocSpec.written_lang (rd_lang d)))) [] []
+                          (map (fun it => mkItem (TtmlDocSpec.trunc_ms (ri_st it)) (TtmlDocSpec.trunc_ms (ri_en it)) None None no_attrs
+                                                 (map (map stlttml_run) (ri_lines it))) (rd_items d))).
+Proof. intros d Hd. apply conversion_stl_ttml_styled_doc. rewrite stlttml_repr_eq. exact Hd. Qed.
+(* a written file with "hello" and italic boxed "world" in a row, justification right, vertical position 18 (ex_stlvtt_file
+   has the WebVTT bytes, with  align:right line:73%  and "helloworld"): its cue list is in the domain, two runs then one *)
+Example C07_stl_to_vtt_styled_example :
+  match ex_stlvtt_src with
+  | Ok data => match read_stl false data with
+               | Ok d => stl_vtt_ok d /\ map (fun it => map (fun l => length l) (ri_lines it)) (rd_items d) = [[2%nat; 1%nat]]
+               | _ => False
+               end
+  | _ => False
+  end.
+Proof. vm_compute. split; reflexivity. Qed.
+Print Assumptions C07_stl_to_vtt_styled.
+Print Assumptions C07_stl_to_ttml_styled.
+Print Assumptions C07_stl_to_ttml_styled_doc.
